@@ -386,9 +386,16 @@ func genReads(out *hx.Out, rnd *rand.Rand, scale int) {
 	}
 	perFault := 6 * scale
 	for _, f := range faults {
-		for i := 0; i < perFault; i++ {
+		// perFault random cases, then one more per fault that is always the whole-blob form of the
+		// range API, GetBlobRange(0, negative): the one range read the client has to verify like GetBlob
+		// (drawn at random it turns up in one case out of five times the blob's length)
+		for i := 0; i <= perFault; i++ {
 			content := contents[rnd.Intn(len(contents))]
 			kind := rnd.Intn(4)
+			whole := i == perFault
+			if whole {
+				kind = 3
+			}
 			c := readCase{Kind: kind, Fault: f.name}
 			d := memsim.Sha(content)
 			switch kind {
@@ -414,6 +421,9 @@ func genReads(out *hx.Out, rnd *rand.Rand, scale int) {
 				if rnd.Intn(5) == 0 {
 					o1 = -1
 					end = n
+				}
+				if whole {
+					o0, o1, end = 0, []int64{-1, -1, -2, -1 << 62}[rnd.Intn(4)], n
 				}
 				c.Known = d
 				c.O0, c.O1 = o0, o1
